@@ -59,6 +59,21 @@ def run(res, tier, seed):
     # the server-side wrapper's idle timer (re-armed by every delivery); bound through VERIF_TCP_WRAP=timeout
     st = vlib.mc(os.path.join(vlib.SPEC, "IdleTimer.tla"), os.path.join(vlib.SPEC, "MC_IdleTimer.cfg"), wd, workers=2)
     res.add_mc("MC_IdleTimer", st)
+    # the real TimeoutStream with time: whole frames ready or nothing there, clock moved before every poll;
+    # judged by the monitor Trace_IdleTimer (ready work wins over an expired timer; idle >= T ends the stream)
+    ipath = os.path.join(wd, "idle.trace.ndjson")
+    vlib.run_driver("drive_tcp", ["idle-probe", "--trace", ipath], stdout_path=os.path.join(wd, "idle.out"))
+    imism, ist = vlib.trace_check(os.path.join(vlib.SPEC, "Trace_IdleTimer.tla"), os.path.join(vlib.SPEC, "Trace_IdleTimer.cfg"),
+                                  vlib.workdir("c17_idle"), ipath, 600)
+    nidle = sum(1 for _ in open(ipath))
+    if nidle < 100:
+        raise vlib.ToolError("idle probe produced too few events")
+    res.traces += nidle
+    res.evaluations += nidle
+    res.extra["idle_timer_probe_events"] = nidle
+    for m in imism:
+        res.mismatch("idle-timer:" + str(m["event"].get("got")) + "-instead-of-" + str(m["expected"]),
+                     {"inner": m["event"].get("inner")}, m)
     # ---- R (+ T on the same runs)
     gens = GEN_THOROUGH if tier == "thorough" else GEN_QUICK
     traces = []
@@ -84,7 +99,7 @@ def run(res, tier, seed):
         # (TcpClientStream; TimeoutStream with a timeout that never fires on the paused clock)
         wrapped_verdicts = []
         if gi in WRAPPED:
-            for wrap in ("client", "timeout"):
+            for wrap in ("client", "timeout", "adapters"):
                 wt = os.path.join(wd, f"{name}.{wrap}.trace.ndjson")
                 wv = os.path.join(wd, f"{name}.{wrap}.verdicts.ndjson")
                 vlib.run_driver("drive_tcp", ["replay", "--trace", wt], stdin_path=cpath, stdout_path=wv, env={"VERIF_TCP_WRAP": wrap})
